@@ -612,8 +612,8 @@ func (e *vEngine) ctxFor(spec string) (context.Context, context.CancelFunc) {
 	if e.session != nil {
 		ctx = e.session
 	}
-	parts := strings.SplitN(spec, "~", 2)
-	if len(parts) == 2 && parts[1] != "" {
+	parts := strings.SplitN(spec, "~", 3)
+	if len(parts) >= 2 && parts[1] != "" {
 		for _, kvs := range strings.Split(parts[1], "+") {
 			f := strings.SplitN(kvs, ":", 2)
 			ctx = context.WithValue(ctx, vCtxKey(vUnhex(f[0])), vParse(f[1]))
@@ -621,6 +621,10 @@ func (e *vEngine) ctxFor(spec string) (context.Context, context.CancelFunc) {
 	}
 	if t := vTags(parts[0]); t != nil {
 		ctx = AddRPCTagsToContext(ctx, t)
+	}
+	if len(parts) == 3 && parts[2] == "fn" {
+		// the caller marks the context "fire now" (as a Connection user does) after attaching its tags
+		ctx = WithFireNow(ctx)
 	}
 	return context.WithCancel(ctx)
 }
